@@ -228,14 +228,18 @@ func fmtF(l []float64) string {
 }
 
 // matchRun: does the measured run agree with the admissible run r (gaps within tol, count within the edge)?
-func matchRun(sc *script, starts []float64, r []int) (bool, string) {
-	tol := float64(sc.tol)
-	need := countBelow(sc.span-sc.edge, r)
+func matchRun(sc *script, tol float64, starts []float64, stopMs float64, r []int) (bool, string) {
 	n := len(starts)
-	if n < need || n > len(r) {
-		return false, fmt.Sprintf("%d productions, the model admits %d..%d", n, need, len(r))
+	if n > len(r) {
+		return false, fmt.Sprintf("%d productions, the model admits at most %d", n, len(r))
 	}
-	if n > 0 && starts[0] > 3*tol {
+	if n == 0 {
+		if len(r) > 0 && stopMs > 3*tol {
+			return false, "no production at all, the model says the first one starts at 0"
+		}
+		return true, ""
+	}
+	if starts[0] > 3*tol {
 		return false, fmt.Sprintf("first production %.0f ms after the loop started, the model says 0", starts[0])
 	}
 	for i := 1; i < n; i++ {
@@ -243,6 +247,15 @@ func matchRun(sc *script, starts []float64, r []int) (bool, string) {
 		gr := float64(r[i] - r[i-1])
 		if math.Abs(gm-gr) > tol {
 			return false, fmt.Sprintf("production %d started %.0f ms after production %d, the model says %.0f ms", i, gm, i-1, gr)
+		}
+	}
+	// the run was cancelled at stopMs: was the model's next production overdue by then?  (compared
+	// relative to the last measured production, so that accumulated timer lateness does not count)
+	if n < len(r) && r[n] < sc.span {
+		waited := stopMs - starts[n-1]
+		gr := float64(r[n] - r[n-1])
+		if waited > gr+tol+float64(sc.edge) {
+			return false, fmt.Sprintf("%d productions; %.0f ms after the last one no further production had started, the model says %.0f ms", n, waited, gr)
 		}
 	}
 	return true, ""
@@ -256,7 +269,7 @@ func evaluate(sc *script, ms measurement, runs [][]int) []finding {
 				return
 			}
 		}
-		out = append(out, finding{sig, what + " [" + sc.line() + "; measured starts(ms)=" + fmtF(ms.starts) + "]"})
+		out = append(out, finding{sig, what + " [" + sc.line() + "; measured starts(ms)=" + fmtF(ms.starts) + fmt.Sprintf("; scheduler noise %.0f ms", ms.noise) + "]"})
 	}
 	if ms.panicked != "" {
 		add("C17/panic/aggregation-loop", "AggregationLoop panicked: "+ms.panicked)
@@ -265,7 +278,10 @@ func evaluate(sc *script, ms measurement, runs [][]int) []finding {
 	if ms.loopErr != "" {
 		add("C17/loop/returned-error", "AggregationLoop reported "+ms.loopErr)
 	}
-	B, I, tol := float64(sc.B), float64(sc.I), float64(sc.tol)
+	// tolerances widen with the scheduler noise measured during this very run (a loaded machine wakes
+	// timers late; it never makes the loop early by more than the lateness of the preceding event)
+	B, I, tol := float64(sc.B), float64(sc.I), float64(sc.tol)+2*ms.noise
+	rateTol := rateTol + 2*ms.noise
 	lazy := sc.mode == "lazy"
 	// productions started before the cancellation
 	var starts, ends []float64
@@ -280,7 +296,7 @@ func evaluate(sc *script, ms measurement, runs [][]int) []finding {
 	// (0) correspondence with the model: some admissible run matches
 	okAny, why := false, ""
 	for i, r := range runs {
-		ok, w := matchRun(sc, starts, r)
+		ok, w := matchRun(sc, tol, starts, ms.stopMs, r)
 		if ok {
 			okAny = true
 			break
@@ -386,13 +402,16 @@ type job struct {
 	sc       *script
 	runs     [][]int
 	findings []finding
-	note     string
+	noise    float64
 }
 
 func attempt(j *job) []finding {
 	ms, err := runReal(j.sc)
 	if err != nil {
 		return []finding{{"C17/setup/new-manager-failed", err.Error()}}
+	}
+	if ms.noise > j.noise {
+		j.noise = ms.noise
 	}
 	return evaluate(j.sc, ms, j.runs)
 }
@@ -505,6 +524,9 @@ func Run(c *hx.Ctx) {
 			for _, f := range first {
 				c.St.Notes = append(c.St.Notes, fmt.Sprintf("attempt %d of scenario %d: %s — %s", a, j.scenario, f.sig, f.what))
 			}
+		}
+		if j.noise > 15 {
+			c.Hit("noisy-run(>15ms timer lateness)")
 		}
 		seen := map[string]bool{}
 		for _, f := range j.findings {
